@@ -379,9 +379,13 @@ structure Meas where
   checkpointPath : String              -- not transmitted (documented)
   deriving DecidableEq, Repr
 
+structure Dur where
+  seconds : Int
+  nanos : Int
+  deriving DecidableEq, Repr
+
 structure PMeas where
-  seconds : Int                        -- `elapsed_duration.seconds`
-  nanos : Int                          -- `elapsed_duration.nanos`
+  duration : Option Dur                -- message field `elapsed_duration` (presence matters for the bytes)
   stepCount : Int
   metrics : List (String × Rat)
   deriving DecidableEq, Repr
@@ -393,14 +397,14 @@ def truncNonneg (q : Rat) : Int := q.floor
 
 def measToProto (m : Meas) : PMeas :=
   let s := truncNonneg m.elapsedSecs
-  { seconds := s
-    nanos := truncNonneg (nanosPerSec * (m.elapsedSecs - s))
+  { duration := some ⟨s, truncNonneg (nanosPerSec * (m.elapsedSecs - s))⟩   -- both fields are assigned: present
     stepCount := m.steps
     metrics := m.metrics.map fun e => (e.1, e.2.value) }
 
 def measFromProto (cfg : Cfg) (p : PMeas) : Meas :=
+  let d := p.duration.getD ⟨0, 0⟩          -- an absent message reads as all defaults
   { metrics := p.metrics.foldl (fun acc e => insBy Prod.fst (e.1, (⟨e.2, none⟩ : Metric)) acc) []
-    elapsedSecs := if cfg.readNanos then (p.seconds : Rat) + (p.nanos : Rat) / nanosPerSec else (p.seconds : Rat)
+    elapsedSecs := if cfg.readNanos then (d.seconds : Rat) + (d.nanos : Rat) / nanosPerSec else (d.seconds : Rat)
     steps := p.stepCount
     checkpointPath := "" }
 
@@ -846,7 +850,8 @@ structure PEarlyStopDecision where
   predicted : Option PMeas       -- `optional Measurement`
   deriving DecidableEq, Repr
 
-def emptyPMeas : PMeas := ⟨0, 0, 0, []⟩
+/-- `study_pb2.Measurement()` -/
+def emptyPMeas : PMeas := ⟨none, 0, []⟩
 
 /-- `to_decisions_proto`: an empty `Measurement()` is passed to the constructor when there is no
 prediction, so the field is always present -/
@@ -859,9 +864,8 @@ def earlyStopDecisionFromProto (cfg : Cfg) (d : PEarlyStopDecision) : EarlyStopD
 
 def emptyMeas : Meas := ⟨[], 0, 0, ""⟩
 
-/-- no prediction and the empty prediction coincide on the wire -/
 def earlyStopDecisionNorm (d : EarlyStopDecision) : EarlyStopDecision :=
-  { d with predicted := some (match d.predicted with | some m => measNorm m | none => emptyMeas) }
+  { d with predicted := d.predicted.map measNorm }
 
 structure EarlyStopDecisions where
   decisions : List EarlyStopDecision
